@@ -134,6 +134,17 @@ def polygon_is_inside(chk, shapes, ld, mode):
                 pass
             if isinstance(code, sp.Not) and isinstance(code.args[0], sp.Eq):
                 code = sp.Ne(*code.args[0].args)
+        if mode == "batch":
+            # concretisation cross-check of the engine: the symbolic value on a real L-shaped polygon in the xy plane (where the alignment is the
+            # identity) against the same method run by CPython
+            from pyvc import concrete
+            from .common import real_coxeter
+            Lp = np.array([[0.0, 0, 0], [3, 0, 0], [3, 1, 0], [1, 1, 0], [1, 3, 0], [0, 3, 0]]) + np.array([0.5, -0.25, 0.0])
+            rng = np.random.RandomState(4)
+            pts_c = np.vstack([np.c_[rng.uniform(-0.5, 4.0, size=(40, 2)), np.zeros(40)], np.array([[1.5, 0.75, 0.0], [3.5, 0.25, 0.0], [1.5, 2.0, 0.0], [1.0, 0.0, 0.0]]) + np.array([0.0, 0.0, 0.0])])
+            env = concrete.Env(sizes={NV: len(Lp), CT.Q: len(pts_c)}, arrays={"Wv": Lp, "Vm": Lp, "pt": pts_c},
+                               scalars={Rs[i][j]: (1.0 if i == j else 0.0) for i in range(3) for j in range(3)})
+            concrete.cross_check(chk, f"Polygon.is_inside[{t}]", fkey, code, env, (CT.Q,), real_coxeter().shapes.Polygon(Lp).is_inside(pts_c), boolean=True)
         # (1) floor(S / 2) != 0 with S one sum over the edge axis
         sums = list(code.atoms(sp.Sum))
         S = sums[0] if len(sums) == 1 else None
